@@ -528,6 +528,294 @@ def gen_load_case(rng):
     return {"family": "sqlite", "store": store, "ops": ops}
 
 
+# ----------------------------------------------------------------------------------------------
+# audited input dimensions (tools/COVERAGE_AUDIT.md): fixed cases, reached in EVERY run, and the bookkeeping
+
+NFC_NAME, NFD_NAME = "caf\u00e9.txt", "cafe\u0301.txt"
+DIM_NAMES = {
+    "name:backslash": ["we\\ird.txt"], "name:space": [" lead", "sp ace"], "name:leading-dot": [".hidden"],
+    "name:non-ascii(cyrillic,cjk,emoji)": ["\u041f\u0440\u0438\u0432\u0435\u0442", "\u65e5\u672c", "\U0001f600"],
+    "name:non-NFC+composed-twin": [NFC_NAME, NFD_NAME], "name:.dir-suffix": ["x.dir"],
+    "name:prefix-siblings": ["imgs", "imgs_raw", "imgs.bak"], "name:1-char": ["a"], "name:200-chars": ["L" * 200],
+    "name:case-twins": ["Readme", "README"],
+}
+EMPTY_LISTING_OID = "d751713988987e9331980363e24189ce.dir"
+HEX32 = "0cc175b9c0f1b6a831c399e26977266"  # 31 digits + one varying
+
+
+def M(**kw):
+    m = {"isdir": False, "size": None, "nfiles": None, "isexec": False, "version_id": None, "etag": None,
+         "checksum": None, "md5": None, "inode": None, "mtime": None, "remote": None, "is_link": False,
+         "destination": None, "nlink": 1}
+    m.update(kw)
+    return {f: m[f] for f in FIELDS}
+
+
+def H(name, value, obj_name=None):
+    return {"name": name, "value": value, "obj_name": obj_name}
+
+
+M_FULL = dict(isdir=True, size=5, nfiles=2, isexec=True, version_id="v1", etag='e"t', checksum="c", md5="m5", inode=7,
+              mtime=1.5, remote="origin", is_link=True, destination="dest/\u00fc", nlink=2)
+M_EMPTY_STR = dict(size=0, nfiles=0, version_id="", etag="", checksum="", md5="", remote="", destination="")
+DIR_OID = "0cc175b9c0f1b6a831c399e269772661.dir"
+FILE_OID = "d41d8cd98f00b204e9800998ecf8427e"
+# (meta, hash) combinations, legal but partly inconsistent
+DIM_COMBOS = [
+    (M(size=0), H("md5", DIR_OID)),                              # .dir hash, isdir False, size 0
+    (None, H("md5", DIR_OID, "data/dir")),                        # .dir hash, no meta, obj_name on a directory id
+    (M(size=3, isexec=True), None),                               # meta without hash
+    (M(), H("md5", FILE_OID, "data/file")),                       # all-default meta, obj_name on a file id
+    (None, None),                                                 # nothing at all
+    (M(**M_FULL), H("md5-dos2unix", FILE_OID)),                   # every field set
+    (M(**M_EMPTY_STR), H("sha256", FILE_OID)),                    # zero / empty-string values everywhere
+    (M(isdir=True, nfiles=0, size=0), H("md5", EMPTY_LISTING_OID)),  # the empty listing's id
+    (M(nfiles=0), H(None, "abc")),                                # value without a name
+    (M(isexec=True), H("md5", "")),                               # name without a value
+]
+
+
+def _dim_entries(keys, shift=0):
+    out = []
+    for i, k in enumerate(keys):
+        m, h = DIM_COMBOS[(i + shift) % len(DIM_COMBOS)]
+        out.append([k, {"key": k, "meta": _copy(m), "hi": _copy(h), "loaded": (None, True, False)[(i + shift) % 3]}])
+    return out
+
+
+def dim_cases():
+    """deterministic (no rng): every audited dimension, through every route, in every run"""
+    fam: dict = {}
+
+    def add(f, c):
+        c["family"] = f
+        c["dim"] = True
+        fam.setdefault(f, []).append(c)
+
+    name_keys = [[n] for ns in DIM_NAMES.values() for n in ns if n != "sp ace"]
+    name_keys += [["imgs", "a"], ["\u041f\u0440\u0438\u0432\u0435\u0442", "\u65e5\u672c", "\U0001f600"],
+                  ["d1", "d2", "d3", "f"], ["d1", "d2"]]
+    A = _dim_entries(name_keys)
+    A2 = _dim_entries(name_keys, shift=4)
+    # identifiers: one value under three algorithm names, ids ending in every hex digit (file and .dir)
+    B = [[["same", n], {"key": ["same", n], "meta": M(size=1), "hi": H(n, FILE_OID), "loaded": None}]
+         for n in ("md5", "md5-dos2unix", "sha256")]
+    for c in "0123456789abcdef":
+        B.append([["h", c], {"key": ["h", c], "meta": M(size=1), "hi": H("md5", HEX32 + c), "loaded": None}])
+        B.append([["hd", c], {"key": ["hd", c], "meta": M(isdir=True, nfiles=1), "hi": H("md5", HEX32 + c + ".dir"),
+                              "loaded": True}])
+    # to_dict / from_dict: every (hash x meta x loaded) combination of the audit list
+    hashes = [None, H("md5", FILE_OID), H("md5", DIR_OID), H("md5-dos2unix", DIR_OID), H("sha256", FILE_OID),
+              H(None, "abc"), H("md5", ""), H("md5", FILE_OID, "data/file"), H("md5", EMPTY_LISTING_OID, "data")]
+    metas = [None, M(), M(isdir=True), M(size=0), M(nfiles=0), M(isexec=True), M(**M_EMPTY_STR), M(**M_FULL),
+             M(version_id=""), M(etag=""), M(remote="r", nlink=0), M(md5=FILE_OID)]
+    for h in hashes:
+        for m in metas:
+            for loaded in (None, True, False):
+                add("entry", {"entry": {"key": ["a"], "meta": _copy(m), "hi": _copy(h), "loaded": loaded}})
+    for m in metas[1:]:
+        add("meta", {"meta": _copy(m)})
+    for form in ("json", "db"):
+        add(form, {"form": form, "entries": _copy(A)})
+        add(form, {"form": form, "entries": _copy(B)})
+        add(form, {"form": form, "entries": []})
+    sets = lambda ents: [["set", k, e] for k, e in _copy(ents)]  # noqa: E731
+    root = [[], {"key": [], "meta": M(isdir=True, nfiles=0), "hi": H("md5", EMPTY_LISTING_OID, "data"), "loaded": False}]
+    add("sqlite", {"xproc": True, "ops": sets(A) + [["commit"]]})
+    add("sqlite", {"xproc": True, "ops": sets(B) + sets([root]) + [["commit"]]})
+    # second save of the same index, in the same session and after a reopen; child stored before its parent
+    add("sqlite", {"xproc": True, "ops": sets(list(reversed(A2))) + sets([root]) + [["commit"], ["resave"], ["commit"],
+                                                                                    ["reopen"], ["resave"], ["commit"]]})
+    add("sqlite", {"xproc": True, "ops": [["commit"]]})                      # the empty index
+    add("sqlite", {"ops": sets(A[:6]) + [["commit"], ["del", A[0][0], "del"], ["del", A[1][0], "node"],
+                                         ["del", A[2][0], "pop"], ["commit"]]})
+    # parts with "/" and empty parts are legal for the SQLite form as long as entries are only stored and listed
+    odd = [[["a/b"], A[0][1]], [["a", "b"], A[1][1]], [["x", ""], A[2][1]], [["x"], A[3][1]], [[""], A[5][1]]]
+    add("sqlite", {"xproc": True, "ops": [["set", k, dict(_copy(e), key=k)] for k, e in odd] + [["commit"]]})
+    # across routes (keys non-empty: the joined forms are on the way)
+    add("chain", {"entries": _copy(A), "routes": ["json", "db", "sqlite", "json"]})
+    add("chain", {"entries": _copy(B), "routes": ["sqlite", "db", "json", "sqlite"]})
+    add("chain", {"entries": _copy(A2), "routes": ["db", "sqlite", "sqlite", "db"]})
+    # listings: with and without metadata, per hash-name family
+    tmetas = [M(size=0), M(**M_FULL), M(), M(**M_EMPTY_STR), M(isdir=True, nfiles=0), M(size=3, isexec=True)]
+    for hn in ("md5", "md5-dos2unix"):
+        ents = [[k, _copy(tmetas[i % len(tmetas)]), H(hn, (HEX32 + "0123456789abcdef"[i % 16]) + (".dir" if i % 4 == 0 else ""),
+                                                      "o" if i % 5 == 0 else None)] for i, k in enumerate(name_keys)]
+        add("listing", {"hash_name": hn, "with_meta": True, "entries": _copy(ents)})
+        add("listing", {"hash_name": hn, "with_meta": False, "entries": [[k, None if i % 2 else m, h] for i, (k, m, h) in enumerate(_copy(ents))]})
+        add("listing", {"hash_name": hn, "with_meta": True, "entries": []})
+        add("listing", {"hash_name": hn, "with_meta": False, "entries": []})
+    for name in ("md5", "sha256"):
+        # the route Tree.load takes for a store of the default algorithm: no hash name given
+        add("listing", {"hash_name": None, "with_meta": False,
+                        "entries": [[k, None, H(name, HEX32 + "0123456789abcdef"[i % 16])] for i, k in enumerate(name_keys[:8])]})
+    # a sha256 listing GIVEN its hash name: from_list has no Meta attribute to read (model agrees; reported)
+    add("listing", {"hash_name": "sha256", "with_meta": False, "malformed": True, "entries": [[["a"], None, H("sha256", FILE_OID)]]})
+    for k in name_keys:
+        add("key", {"key": k})
+    return fam
+
+
+def _case_keys(case):
+    f = case["family"]
+    if f == "key":
+        return [case["key"]]
+    if f in ("json", "db", "chain"):
+        return [k for k, _ in case["entries"]]
+    if f == "listing":
+        return [k for k, _, _ in case["entries"]]
+    if f == "sqlite":
+        return [op[1] for op in case["ops"] if op[0] in ("set", "mutset", "del")]
+    if f == "entry":
+        return [case["entry"]["key"]] if case["entry"]["key"] is not None else []
+    return []
+
+
+def _case_mh(case):
+    """[(meta desc or None, hash desc or None, loaded or "n/a")]"""
+    f = case["family"]
+    if f in ("json", "db", "chain"):
+        return [(e["meta"], e["hi"], e["loaded"]) for _, e in case["entries"]]
+    if f == "listing":
+        return [(m, h, "n/a") for _, m, h in case["entries"]]
+    if f == "sqlite":
+        return [(op[2]["meta"], op[2]["hi"], op[2]["loaded"]) for op in case["ops"] if op[0] in ("set", "mutset")]
+    if f == "entry":
+        e = case["entry"]
+        return [(e["meta"], e["hi"], e["loaded"])]
+    if f == "meta":
+        return [(case["meta"], None, "n/a")]
+    if f == "hash":
+        return [(None, case["hi"], "n/a")]
+    return []
+
+
+def dims_of(case):
+    import unicodedata
+
+    out = set()
+    f = case["family"]
+    keys = _case_keys(case)
+    parts = {p for k in keys for p in k}
+    for dim, names in DIM_NAMES.items():
+        need = names if dim in ("name:non-NFC+composed-twin", "name:prefix-siblings", "name:case-twins",
+                                "name:non-ascii(cyrillic,cjk,emoji)") else names[:1]
+        if all(n in parts for n in need):
+            out.add(dim)
+    if any(unicodedata.normalize("NFC", p) != p for p in parts):
+        out.add("name:non-NFC")
+    if any(len(k) == 0 for k in keys):
+        out.add("key:root ()")
+    if any(len(k) >= 3 for k in keys):
+        out.add("key:depth>=3")
+    tk = {tuple(k) for k in keys}
+    if any(k[:i] in tk for k in tk for i in range(1, len(k))):
+        out.add("key:parent-and-child-both-entries")
+    if f == "sqlite" and any("/" in p or p == "" for p in parts):
+        out.add("key:part-with-slash-or-empty(sqlite,store+list)")
+    mh = _case_mh(case)
+    vals = {}
+    ends = {False: set(), True: set()}
+    for m, h, loaded in mh:
+        out.add("meta:" + ("absent" if m is None else "present"))
+        out.add("hash:" + ("absent" if h is None else "present"))
+        if loaded != "n/a":
+            out.add(f"loaded:{loaded}")
+        if m is not None:
+            if m == M():
+                out.add("meta:all-default")
+            if m["size"] == 0:
+                out.add("meta:size-0")
+            if m["nfiles"] == 0:
+                out.add("meta:nfiles-0")
+            if any(m[x] == "" for x in SER_STR):
+                out.add("meta:empty-string-field")
+            if all(m[x] not in (None, False, "") for x in FIELDS):
+                out.add("meta:every-field-set")
+            if h is None:
+                out.add("meta-without-hash")
+        if h is not None:
+            v, n = h.get("value"), h.get("name")
+            if h.get("obj_name") is not None:
+                out.add("hash:obj_name-on-" + ("dir-id" if v and v.endswith(".dir") else "file-id"))
+            if v and v.endswith(".dir"):
+                out.add("hash:.dir")
+                if m is None:
+                    out.add("hash:.dir+no-meta")
+                elif not m["isdir"]:
+                    out.add("hash:.dir+isdir-False")
+            if v == EMPTY_LISTING_OID:
+                out.add("hash:empty-listing-oid")
+            if v and not n:
+                out.add("hash:value-without-name")
+            if n and not v:
+                out.add("hash:name-without-value")
+            if n in ("md5", "md5-dos2unix", "sha256"):
+                out.add("hash-name:" + n)
+            if v and n:
+                vals.setdefault(v, set()).add(n)
+                raw = v[:-4] if v.endswith(".dir") else v
+                if len(raw) == 32 and raw[-1] in "0123456789abcdef":
+                    ends[v.endswith(".dir")].add(raw[-1])
+    if any(len(ns) >= 3 for ns in vals.values()):
+        out.add("hash:same-value-under-3-algorithm-names")
+    if len(ends[False]) == 16:
+        out.add("hash:ids-ending-in-every-hex-digit(file)")
+    if len(ends[True]) == 16:
+        out.add("hash:ids-ending-in-every-hex-digit(.dir)")
+    # routes
+    if f in ("meta", "hash", "entry"):
+        out.add("route:to_dict/from_dict(+twice)")
+    if f in ("json", "db"):
+        out.add(f"route:{f}(+twice)")
+        if not case["entries"]:
+            out.add(f"shape:empty-index:{f}")
+    if f == "chain":
+        out.add("route:across-routes(chain)")
+    if f == "sqlite":
+        kinds = {op[0] for op in case["ops"]}
+        out.add("route:sqlite:session-view+commit-close-reopen")
+        if case.get("xproc"):
+            out.add("route:sqlite:another-process")
+        if "resave" in kinds:
+            out.add("route:sqlite:second-save")
+        if "del" in kinds:
+            out.add("route:sqlite:removal")
+        if "mutset" in kinds:
+            out.add("route:sqlite:in-place-update")
+        if "load" in kinds:
+            out.add("route:sqlite:DataIndex._load")
+        if not (kinds & {"set", "mutset"}):
+            out.add("shape:empty-index:sqlite")
+    if f == "listing":
+        wm = case.get("with_meta", True)
+        out.add(f"route:listing:{'with_meta' if wm else 'plain'}:hash_name={case['hash_name']}")
+        if not case["entries"]:
+            out.add("shape:empty-listing:" + ("with_meta" if wm else "plain"))
+    return out
+
+
+DIMENSIONS = (
+    list(DIM_NAMES) + ["name:non-NFC", "key:root ()", "key:depth>=3", "key:parent-and-child-both-entries",
+                       "key:part-with-slash-or-empty(sqlite,store+list)",
+                       "meta:absent", "meta:all-default", "meta:size-0", "meta:nfiles-0", "meta:empty-string-field",
+                       "meta:every-field-set", "meta-without-hash", "hash:absent", "hash:obj_name-on-dir-id",
+                       "hash:obj_name-on-file-id", "hash:.dir", "hash:.dir+no-meta", "hash:.dir+isdir-False",
+                       "hash:empty-listing-oid", "hash:value-without-name", "hash:name-without-value",
+                       "hash-name:md5", "hash-name:md5-dos2unix", "hash-name:sha256",
+                       "hash:same-value-under-3-algorithm-names", "hash:ids-ending-in-every-hex-digit(file)",
+                       "hash:ids-ending-in-every-hex-digit(.dir)", "loaded:None", "loaded:True", "loaded:False",
+                       "route:to_dict/from_dict(+twice)", "route:json(+twice)", "route:db(+twice)",
+                       "route:across-routes(chain)", "route:sqlite:session-view+commit-close-reopen",
+                       "route:sqlite:another-process", "route:sqlite:second-save", "route:sqlite:removal",
+                       "route:sqlite:in-place-update", "route:sqlite:DataIndex._load",
+                       "shape:empty-index:json", "shape:empty-index:db", "shape:empty-index:sqlite",
+                       "shape:empty-listing:with_meta", "shape:empty-listing:plain",
+                       "route:listing:with_meta:hash_name=md5", "route:listing:with_meta:hash_name=md5-dos2unix",
+                       "route:listing:plain:hash_name=md5", "route:listing:plain:hash_name=md5-dos2unix",
+                       "route:listing:plain:hash_name=None"])
+
+
 def key_is_wf(k):
     return len(k) > 0 and all(p and "/" not in p for p in k)
 
@@ -681,6 +969,10 @@ def run_entry(ctx, case):
     d = e.to_dict()
     e2 = DataIndexEntry.from_dict(json.loads(json.dumps(d)))
     problems = entry_problems(e, e2, "entry")
+    # twice: the entry that came back is a fixed point of the round trip (every field, eq=False ones included)
+    e3 = DataIndexEntry.from_dict(json.loads(json.dumps(e2.to_dict())))
+    if desc_of(e3) != desc_of(e2):
+        problems.append(("C20:entry:twice:not-idempotent", f"{desc_of(e2)!r} came back as {desc_of(e3)!r}"))
     if "loaded" not in d:
         problems.append(("C20:entry:loaded-not-emitted", "to_dict has no 'loaded'"))
     exp = vL([vjv(d), ok(ventry(e2))])
@@ -746,17 +1038,78 @@ def run_joined(ctx, case):
             cache.close()
         idx2 = read_db(path)
     after = [(list(k), e) for k, e in idx2.iteritems()]
-    impl.rm_rf(d)
     problems = []
     wf = all(key_is_wf(k) for k, _ in order)
     if wf:
         problems = index_problems(order, after, form)
+        # twice: the index read back, written and read again through the same form, is unchanged in every field
+        path2 = os.path.join(d, "again." + form)
+        (write_json if form == "json" else write_db)(idx2, path2)
+        idx3 = (read_json if form == "json" else read_db)(path2)
+        after2 = [(list(k), e) for k, e in idx3.iteritems()]
+        problems += index_problems(after, after2, form + ":twice")
+        a1 = sorted(([k, desc_of(e)] for k, e in after), key=lambda x: keysort(x[0]))
+        a2 = sorted(([k, desc_of(e)] for k, e in after2), key=lambda x: keysort(x[0]))
+        if a1 != a2 and not problems:
+            bad = next((x, y) for x, y in zip(a1, a2) if x != y)
+            problems.append((f"C20:{form}:twice:not-idempotent", f"{bad[0]!r} came back as {bad[1]!r}"))
+    impl.rm_rf(d)
     inp = "InJoined " + clist([f"({ckey(k)}, {centry(byk[tuple(k)])})" for k, _ in order])
     cont = vL([vL([vB(k), vjv(v)]) for k, v in sorted(raw.items(), key=lambda kv: strsort(kv[0]))])
     rd = vL([vL([vkey(k), ventry(e)]) for k, e in sorted(after, key=lambda ke: keysort(ke[0]))])
     exp = vL([cont, ok(rd)])
     rich = sum(1 for _, e in order if e.meta is not None and e.hash_info) >= 2
     return inp, exp, problems, wf, rich
+
+
+XPROC = {"on": False, "cases": []}
+
+XPROC_SCRIPT = r"""
+import json, sys
+from dvc_data.index import DataIndex
+out = []
+for path in json.load(sys.stdin):
+    idx = DataIndex.open(path)
+    try:
+        out.append([[list(k), [e.meta.to_dict() if e.meta is not None else {},
+                               e.hash_info.to_dict() if e.hash_info is not None else {}, e.loaded,
+                               None if e.key is None else list(e.key)]] for k, e in idx.iteritems()])
+    finally:
+        idx.close()
+json.dump(out, sys.stdout)
+"""
+
+
+def _jproj(e):
+    p = proj(e)
+    return p[0], p[1], p[2], None if e.key is None else list(e.key)
+
+
+def check_other_process(ctx):
+    """every kept SQLite index file is opened by a fresh interpreter; it must list what this process listed after
+    its own commit + close + reopen"""
+    import subprocess
+
+    from lib.core import PY, REPO
+
+    cases = XPROC["cases"]
+    if not cases:
+        return
+    env = dict(os.environ, PYTHONPATH=os.path.join(REPO, "src"), PYTHONHASHSEED="0")
+    p = subprocess.run([PY, "-c", XPROC_SCRIPT], input=json.dumps([c[0] for c in cases]), capture_output=True,
+                       text=True, env=env, timeout=300, check=False)
+    if p.returncode != 0:
+        ctx.oracle_fail("C20:sqlite:other-process:cannot-read", f"another process failed to read the index: {p.stderr[-400:]}",
+                        cases[0][1])
+        return
+    got = json.loads(p.stdout)
+    norm = lambda v: sorted(json.loads(json.dumps(v)), key=lambda x: keysort(x[0]))  # noqa: E731
+    for (path, case, mine), theirs in zip(cases, got):
+        if norm(mine) != norm(theirs):
+            ctx.oracle_fail("C20:sqlite:other-process:differs",
+                            f"another process reads {norm(theirs)!r}, this process read {norm(mine)!r}", case)
+    ctx.count("sqlite:read back by another process", len(cases))
+    XPROC["cases"] = []
 
 
 def desc_of(e):
@@ -885,6 +1238,12 @@ def run_sqlite(ctx, case):
                     del si[k]
                 flush()
                 ctx.count("sqlite:removal (" + op[2] + ")")
+            elif op[0] == "resave":
+                # second save of the same index: every entry as the index shows it is stored again
+                for k, e in list(si.iteritems()):
+                    si[k] = e
+                flush()
+                ctx.count("sqlite:resave of every entry")
             elif op[0] == "commit":
                 si.commit()
                 committed = dict(pending)
@@ -922,7 +1281,11 @@ def run_sqlite(ctx, case):
         DataIndexTrie.delete_node = orig_delete_node
         if si is not None:
             si.close()
-    impl.rm_rf(d)
+    if case.get("xproc") and XPROC["on"]:
+        # read by ANOTHER PROCESS after the run (one subprocess for all such cases): keep the file
+        XPROC["cases"].append((path, case, [[list(k), list(_jproj(e))] for k, e in after]))
+    else:
+        impl.rm_rf(d)
     # oracle: the last write per key that was committed is what is read back
     problems = index_problems([(list(k), e) for k, e in committed.items()], after, "sqlite")
     # oracle 2: the reopened index gives exactly what the committed index showed before the close
@@ -938,28 +1301,37 @@ def run_listing(ctx, case):
     from dvc_data.hashfile.tree import Tree
 
     hn = case["hash_name"]
+    with_meta = case.get("with_meta", True)
     t = Tree()
     for k, m, h in case["entries"]:
         t.add(tuple(k), mk_meta(m), mk_hi(h))
     order = list(t)  # (key, meta, hi) in _dict order, keys unique
     byk = {tuple(k): (m, h) for k, m, h in case["entries"]}
-    inp = "InListing %s %s" % (cotext(hn), clist(
+    inp = "%s %s %s" % ("InListing" if with_meta else "InListingPlain", cotext(hn), clist(
         [f"({ckey(k)}, ({cmeta(byk[k][0])}, {chi(byk[k][1])}))" for k, _, _ in order]))
     problems = []
     # the quantifier of the listing part (Properties/C20.v, tree_wf): md5 family, well-formed keys, metadata
     # present, hash of that name with a value.  Inside it an exception is a violation.
-    wf = (hn in ("md5", "md5-dos2unix") and all(key_is_wf(k) for k, _, _ in order)
-          and all(h is not None and h.name == hn and h.value for _, _, h in order)
-          and all(m is not None for _, m, _ in order))
+    # Plain listing (with_meta=False): metadata may be absent; besides the md5 family given by name, the route
+    # Tree.load takes for the default algorithm (hash_name=None: the name is read from the entry) for md5/sha256.
+    names = {h.name if h is not None else None for _, _, h in order}
+    tree_name = next(iter(names)) if len(names) == 1 else (hn or "md5") if not order else None
+    keys_ok = all(key_is_wf(k) for k, _, _ in order) and all(h is not None and h.value for _, _, h in order)
+    if with_meta:
+        wf = (hn in ("md5", "md5-dos2unix") and keys_ok and tree_name == hn
+              and all(m is not None for _, m, _ in order))
+    else:
+        wf = keys_ok and tree_name is not None and (
+            (hn in ("md5", "md5-dos2unix") and tree_name == hn) or (hn is None and tree_name in ("md5", "sha256")))
     try:
-        lst = t.as_list(with_meta=True)
+        lst = t.as_list(with_meta=with_meta)
         e1 = ok(vL([vjv(d) for d in lst]))
     except Exception as exc:  # noqa: BLE001
         if wf:
             problems.append((f"C20:listing:unexpected-exception:as_list:{type(exc).__name__}",
-                             f"as_list(with_meta=True) raised {exc!r} on a well-formed tree"))
+                             f"as_list(with_meta={with_meta}) raised {exc!r} on a well-formed tree"))
         return inp, vL([err(exc), err(exc)]), problems, wf, False
-    raw = json.loads(t.as_bytes(with_meta=True).decode("utf-8"))
+    raw = json.loads(t.as_bytes(with_meta=with_meta).decode("utf-8"))
     if not hn:
         # without a hash name from_list reads the hash with HashInfo.from_dict(entry): a single remaining item
         # whose value is not a string makes an ill-typed HashInfo (silently), before any later entry can raise
@@ -987,22 +1359,38 @@ def run_listing(ctx, case):
                 m2, h2 = amap[k]
                 if h2 is None or (h2.name, h2.value) != (h.name, h.value):
                     problems.append(("C20:listing:hash-differs", f"{k!r}: {h!r} came back as {h2!r}"))
-                # the flat listing stores the hash in the slot of Meta.md5: every other serialised field must
-                # come back unchanged, md5 comes back as the hash value (observation, see Properties/C20.v)
-                want = dict(m.to_dict())
-                if want.get("md5") != h.value:
-                    ctx.count("observation:listing-md5-slot-" + ("overwritten" if m.md5 else "filled"))
-                want["md5"] = h.value
+                if with_meta:
+                    # the flat listing stores the hash in the slot of Meta.md5: every other serialised field must
+                    # come back unchanged, md5 comes back as the hash value (observation, see Properties/C20.v)
+                    want = dict(m.to_dict())
+                    if want.get("md5") != h.value:
+                        ctx.count("observation:listing-md5-slot-" + ("overwritten" if m.md5 else "filled"))
+                    want["md5"] = h.value
+                else:
+                    # nothing but the hash is written; it sits in the md5 slot for the md5 family
+                    want = {"md5": h.value} if h.name in ("md5", "md5-dos2unix") else {}
                 if m2 is None or m2.to_dict() != want:
                     problems.append(("C20:listing:meta-differs",
                                      f"{k!r}: expected {want!r} (serialised metadata with the hash in its md5 slot), "
                                      f"came back as {None if m2 is None else m2.to_dict()!r}"))
-                for sig, what in meta_field_problems(_without_md5(m), _without_md5(m2), "listing"):
-                    problems.append((sig, f"{k!r}: {what}"))
+                if with_meta:
+                    for sig, what in meta_field_problems(_without_md5(m), _without_md5(m2), "listing"):
+                        problems.append((sig, f"{k!r}: {what}"))
             # the listing is a fixed point of the round trip
-            if t2.as_list(with_meta=True) != lst:
+            if t2.as_list(with_meta=with_meta) != lst:
                 problems.append(("C20:listing:not-a-fixpoint", "as_list(from_list(as_list(t))) != as_list(t)"))
+            # twice: the tree that came back is a fixed point (every field of every entry)
+            t3 = Tree.from_list(json.loads(t2.as_bytes(with_meta=with_meta).decode("utf-8")), hash_name=hn)
+            d2 = [(k, desc_of_tm(m, h)) for k, m, h in t2]
+            d3 = [(k, desc_of_tm(m, h)) for k, m, h in t3]
+            if d2 != d3:
+                problems.append(("C20:listing:twice:not-idempotent", f"{d2!r} came back as {d3!r}"))
     return inp, vL([e1, e2]), problems, wf, len(order) >= 2
+
+
+def desc_of_tm(m, h):
+    return (None if m is None else {f: getattr(m, f) for f in FIELDS},
+            None if h is None else (h.name, h.value, h.obj_name))
 
 
 def _without_md5(m):
@@ -1018,7 +1406,7 @@ def gen_all(ctx):
     """-> {family: [case]}"""
     rng = ctx.rng
     fam: dict = {k: [] for k in ("meta", "meta_dict", "hash", "hash_dict", "entry", "entry_dict", "key",
-                                 "json", "db", "sqlite", "listing")}
+                                 "json", "db", "sqlite", "listing", "chain")}
     # Meta: dense enumeration
     n_meta = ctx.n(420, N_META)
     if n_meta >= N_META:
@@ -1035,7 +1423,7 @@ def gen_all(ctx):
             fam["hash"].append({"family": "hash", "hi": {"name": n, "value": v}})
     for _ in range(ctx.n(40, 400)):
         fam["hash_dict"].append({"family": "hash_dict", "dict": gen_hash_dict(rng)})
-    for _ in range(ctx.n(260, 3000)):
+    for _ in range(ctx.n(120, 3000)):
         k = gen_key(rng)
         fam["entry"].append({"family": "entry", "entry": gen_entry(rng, k, INTS + BIG_INTS)})
     # the documented corner: a present but all-default meta
@@ -1105,7 +1493,60 @@ def gen_all(ctx):
             h = None if r < 0.25 else gen_hi(rng)
             ents.append([k, m, h])
         fam["listing"].append({"family": "listing", "malformed": True, "hash_name": hn, "entries": ents})
+    # random routes across forms
+    for _ in range(ctx.n(6, 80)):
+        routes = [rng.choice(["json", "db", "sqlite"]) for _ in range(rng.randint(2, 4))]
+        fam["chain"].append({"family": "chain", "entries": gen_index(rng, n_lo=2, n_hi=5), "routes": routes})
+    # the audited dimensions: fixed cases first
+    for f, cases in dim_cases().items():
+        fam[f][0:0] = cases
     return fam
+
+
+def run_chain(ctx, case):
+    """across routes: the index goes through the routes one after the other, each time written from what the
+    previous route read back.  Judged by the oracle only (every single hop has its own correspondence family)."""
+    from dvc_data.index import DataIndex, read_db, read_json, write_db, write_json
+
+    idx = _build_index(case["entries"])
+    first = [(list(k), e) for k, e in idx.iteritems()]
+    d = ctx.fresh("c20-chain")
+    problems = []
+    prev = None
+    for i, route in enumerate(case["routes"]):
+        path = os.path.join(d, f"hop{i}.{route}")
+        if route == "json":
+            write_json(idx, path)
+            idx = read_json(path)
+        elif route == "db":
+            write_db(idx, path)
+            idx = read_db(path)
+        else:
+            si = DataIndex.open(path)
+            try:
+                for k, e in idx.iteritems():
+                    si[k] = e
+                si.commit()
+            finally:
+                si.close()
+            si = DataIndex.open(path)
+            try:
+                items = list(si.iteritems())
+            finally:
+                si.close()
+            idx = DataIndex()
+            for k, e in items:
+                idx[k] = e
+        cur = [(list(k), e) for k, e in idx.iteritems()]
+        problems += index_problems(first, cur, f"chain:{'>'.join(case['routes'][:i + 1])}")
+        snap = sorted(([k, desc_of(e)] for k, e in cur), key=lambda x: keysort(x[0]))
+        if prev is not None and snap != prev and not problems:
+            bad = next((x, y) for x, y in zip(prev, snap) if x != y)
+            problems.append((f"C20:chain:not-idempotent:{route}", f"{bad[0]!r} came back as {bad[1]!r} after {route}"))
+        prev = snap
+    impl.rm_rf(d)
+    ctx.count("chain:" + ">".join(case["routes"]))
+    return None, None, problems, len(first) >= 2
 
 
 RUNNERS = {
@@ -1126,6 +1567,8 @@ def run_one(ctx, case):
     if f == "sqlite":
         inp, exp, problems, rich = run_sqlite(ctx, case)
         return inp, exp, problems, rich
+    if f == "chain":
+        return run_chain(ctx, case)
     if f == "listing":
         inp, exp, problems, wf, rich = run_listing(ctx, case)
         ctx.count("listing:" + ("well-formed" if wf else "malformed"))
@@ -1136,7 +1579,7 @@ def run_one(ctx, case):
 def _parts(case):
     """the list a container case can be shrunk over"""
     f = case["family"]
-    if f in ("json", "db", "listing"):
+    if f in ("json", "db", "listing", "chain"):
         return "entries"
     if f == "sqlite":
         return "ops"
@@ -1175,7 +1618,7 @@ def shrink(ctx, case, sig, budget=60):
 
 GROUPS = {
     "dicts": ("meta", "meta_dict", "hash", "hash_dict", "entry", "entry_dict", "key"),
-    "json": ("json",), "db": ("db",), "sqlite": ("sqlite",), "listing": ("listing",),
+    "json": ("json",), "db": ("db",), "sqlite": ("sqlite",), "listing": ("listing",), "chain": ("chain",),
 }
 
 
@@ -1196,6 +1639,8 @@ def run(ctx):
         fam.setdefault(c["family"], []).insert(0, c)
     ctx.count("corpus", len(corpus))
     items_by_group: dict = {g: [] for g in GROUPS}
+    XPROC["on"], XPROC["cases"] = True, []
+    dims: dict = {}
     fam2group = {f: g for g, fs in GROUPS.items() for f in fs}
     judged = 0
     for f, cases in fam.items():
@@ -1214,13 +1659,23 @@ def run(ctx):
                 continue
             ctx.case(case, nontrivial)
             ctx.count("family:" + f)
+            for dim in dims_of(case):
+                dims[dim] = dims.get(dim, 0) + 1
             judged += 1
             for sig, what in problems:
                 if any(v.signature == sig for v in ctx.violations):
                     continue
                 small, what2 = shrink(ctx, case, sig)
                 ctx.oracle_fail(sig, what2 or what, small)
-            items_by_group[fam2group[f]].append((case, inp, exp))
+            if inp is not None:
+                items_by_group[fam2group[f]].append((case, inp, exp))
+    XPROC["on"] = False
+    check_other_process(ctx)
+    ctx.extra["input_dimensions"] = {k: dims.get(k, 0) for k in sorted(set(DIMENSIONS) | set(dims))}
+    missing = [k for k in DIMENSIONS if not dims.get(k)]
+    ctx.obligation("coverage:input-dimensions", not missing,
+                   f"{len(DIMENSIONS)} audited input dimensions reached by this run" if not missing
+                   else "dimensions not reached: " + ", ".join(missing))
     ctx.obligation("oracle:round-trips", not any(v.kind == "oracle" for v in ctx.violations),
                    f"{judged} real round trips judged (field-wise and projection-wise) on the implementation's objects")
     # coqc spends its time elaborating the case literals (vm_compute itself takes milliseconds): shard by
